@@ -65,7 +65,9 @@ def iter_nontrivial(s):
 
 def c13_stages(tier):
     st = [Stage('iter-k2c4', 'Trace_Iter', mc=('MC_Iter', 'MC_Iter_k2c4.cfg'), nontrivial=iter_nontrivial),
-          Stage('iter-k3c4', 'Trace_Iter', mc=('MC_Iter', 'MC_Iter_k3c4.cfg'), nontrivial=iter_nontrivial)]
+          Stage('iter-k3c4', 'Trace_Iter', mc=('MC_Iter', 'MC_Iter_k3c4.cfg'), nontrivial=iter_nontrivial),
+          # PolyhedraIter / PolyhedraGen (pwl/iter.rs) over AffTrees: items and size_hint under skip schedules
+          Stage('polyiter-s', 'Trace_Regions', mc=('MC_AffTree', 'MC_AffTree_regions_s.cfg'), shard_events=300, mc_workers=12)]
     if tier == 'thorough':
         st += [Stage('iter-k2c5', 'Trace_Iter', mc=('MC_Iter', 'MC_Iter_k2c5.cfg'), nontrivial=iter_nontrivial, mc_workers=12),
                Stage('iter-k2c5d', 'Trace_Iter', mc=('MC_Iter', 'MC_Iter_k2c5d.cfg'), nontrivial=iter_nontrivial, mc_workers=12)]
@@ -95,6 +97,21 @@ def c02_stages(tier):
     return st
 
 
+def regions_nontrivial(s):
+    return {k: v for k, v in s.items() if k not in ('sc', 'exp')} if len(s.get('lhs', [])) >= 2 else None
+
+
+def RG(name, cfg):
+    return Stage(name, 'Trace_Regions', mc=('MC_AffTree', cfg), nontrivial=regions_nontrivial, shard_events=300, mc_workers=12)
+
+
+def c09_stages(tier):
+    st = [RG('regions-q', 'MC_AffTree_regions_q.cfg')]
+    if tier == 'thorough':
+        st += [RG('regions-t', 'MC_AffTree_regions_t.cfg')]
+    return st
+
+
 def c07_stages(tier):
     st = [AT('arith-q', 'MC_AffTree_arith_q.cfg'), AT('arithaff-q', 'MC_AffTree_arithaff_q.cfg')]
     if tier == 'thorough':
@@ -103,7 +120,7 @@ def c07_stages(tier):
 
 
 def c08_stages(tier):
-    st = [AT('reduce-q', 'MC_AffTree_reduce_q.cfg')]
+    st = [AT('reduce-q', 'MC_AffTree_reduce_q.cfg'), AT('reduce-p', 'MC_AffTree_reduce_p.cfg')]
     if tier == 'thorough':
         st += [AT('reduce-t', 'MC_AffTree_reduce_t.cfg')]
     return st
@@ -127,6 +144,19 @@ CHECKS = {
         'design_ref': 'DESIGN.md 6/C02',
         'rule': 'one script per (left tree, layout, right tree); non-trivial = both operands contain a decision',
         'assumptions': ['E-universe integer data; q=1'],
+    },
+    'C09': {
+        'stages': c09_stages,
+        'level_text': 'For every tree with <= 3 decisions (total/partial, several arena layouts) and every skip position, the model checks '
+                      'that the closed path polytope PolyhedraGen builds contains the routing region of the node and that its interior is routed '
+                      'through the node; the harness records the real polyhedra() stream, find_terminal and path_to_node on a grid with points '
+                      'on hyperplanes, and TLC decides by FM on the recorded polytopes: routing region inside reported polytope, interior of '
+                      'reported polytope routed through the node, disjoint interiors, cover for total trees, stream = reference DFS with depth '
+                      'and sibling counters under skips.',
+        'level_note': AFFTREE_NOTE,
+        'design_ref': 'DESIGN.md 6/C09',
+        'rule': 'one script per (tree, layout, set of skip positions); non-trivial = tree with at least one decision',
+        'assumptions': ['E-universe integer data; q=1', 'grid: half-integers in [-2,2]^2 (contains every breakpoint of the alphabet)'],
     },
     'C07': {
         'stages': c07_stages,
